@@ -66,6 +66,10 @@ type execRec struct {
 	updates   []*remoteworker.CurrentState_Executing
 	snapshots []*remoteworker.CurrentState_Executing
 	sendDone  int
+	// sentAfterShutdown[i]: the send of update i+1 began after shutdown
+	// had begun; returnedAfterShutdown likewise for the return of Execute.
+	sentAfterShutdown     []bool
+	returnedAfterShutdown bool
 
 	response     *remoteexecution.ExecuteResponse
 	responseSnap *remoteexecution.ExecuteResponse
@@ -111,6 +115,15 @@ type monitor struct {
 	// shutdown / PreferBeingIdle bookkeeping
 	shutdownBegun        bool
 	shutdownAtHook       bool // shutdown had begun at the last in-Run hook or reply
+	// wokenAfterShutdown: the driver fired the client's wait timer after
+	// shutdown had begun while the client was certainly parked in its
+	// select (nothing left to consume): the request that follows is built
+	// after shutdown began.
+	wokenAfterShutdown bool
+	// armedShutdown ("timer"/"readiness"): the next hook of that kind
+	// cancels the worker's context from inside Run.
+	armedShutdown string
+	stop          func()
 	needReadiness        bool
 	readinessFailures    int
 	syncCount            int
@@ -311,10 +324,39 @@ func (m *monitor) checkRequest(ctx context.Context, req *remoteworker.Synchroniz
 		m.violation("unknown-current-state", fmt.Sprintf("request #%d carries no recognisable worker state", m.syncCount))
 	}
 
-	// PreferBeingIdle rules.
-	if m.shutdownAtHook {
+	// PreferBeingIdle rules. The request was certainly built after shutdown
+	// began if shutdown preceded the last hook inside this Run, if the
+	// state it reports was produced by the executor after shutdown began
+	// (the client consumed it, then looked at its context), or if the
+	// client was woken from its wait by a timer fired after shutdown.
+	afterShutdown := m.shutdownAtHook || m.wokenAfterShutdown
+	why := "a hook inside Run had already seen the shutdown"
+	if m.wokenAfterShutdown {
+		why = "the client was parked waiting for updates when shutdown began and was woken by its timer afterwards"
+	}
+	if e, ok := req.CurrentState.GetWorkerState().(*remoteworker.CurrentState_Executing_); ok && m.cur != nil && livePtr != nil {
+		switch e.Executing.ExecutionState.(type) {
+		case *remoteworker.CurrentState_Executing_Started:
+		case *remoteworker.CurrentState_Executing_Completed:
+			if m.cur.returnedAfterShutdown && m.timerSeen {
+				afterShutdown, why = true, "it reports a completion the executor produced after shutdown began"
+			}
+		default:
+			for i, u := range m.cur.updates {
+				if u == livePtr && m.cur.sentAfterShutdown[i] && m.timerSeen {
+					afterShutdown, why = true, "it reports an update the executor emitted after shutdown began"
+				}
+			}
+		}
+	}
+	m.wokenAfterShutdown = false
+	if afterShutdown {
+		m.situation("request-built-after-shutdown-inside-run")
+	}
+	_ = why
+	if afterShutdown {
 		if !pbi {
-			m.violation("request-after-shutdown-without-prefer-being-idle", fmt.Sprintf("request #%d was built after shutdown began but PreferBeingIdle is false", m.syncCount))
+			m.violation("request-after-shutdown-without-prefer-being-idle", fmt.Sprintf("request #%d was built after shutdown began (%s) but PreferBeingIdle is false", m.syncCount, why))
 		}
 		if ctx.Err() != nil {
 			m.violation("request-after-shutdown-with-cancelled-context", fmt.Sprintf("request #%d was issued after shutdown with an already cancelled context, so it can never reach the scheduler", m.syncCount))
@@ -412,6 +454,24 @@ func (m *monitor) applyReply(rep syncReply) {
 	}
 }
 
+// shutdownInHook cancels the worker's context from inside a harness-owned
+// callback of Run (readiness check, creation of the wait timer), if the
+// driver armed that. mu held.
+func (m *monitor) shutdownInHook(kind string) {
+	if m.armedShutdown != kind || m.shutdownBegun {
+		return
+	}
+	m.armedShutdown = ""
+	m.stop()
+	m.shutdownBegun = true
+	m.logf("SHUTDOWN inside Run (context cancelled in the %s hook)", kind)
+	m.histf("X:%s", kind)
+	m.situation("shutdown-inside-run-at-" + kind)
+	if m.active > 0 {
+		m.situation("shutdown-while-executing")
+	}
+}
+
 // checkTermination is called when the worker thread decides to terminate.
 // mu held.
 func (m *monitor) checkTermination() {
@@ -448,6 +508,7 @@ func (e fakeExecutor) CheckReadiness(ctx context.Context) error {
 	m := e.m
 	m.mu.Lock()
 	defer m.mu.Unlock()
+	m.shutdownInHook("readiness")
 	m.shutdownAtHook = m.shutdownAtHook || m.shutdownBegun
 	if m.readinessFailures > 0 {
 		m.readinessFailures--
@@ -519,6 +580,7 @@ func (e fakeExecutor) Execute(ctx context.Context, filePool pool.FilePool, monit
 				m.mu.Lock()
 				rec.updates = append(rec.updates, u)
 				rec.snapshots = append(rec.snapshots, proto.Clone(u).(*remoteworker.CurrentState_Executing))
+				rec.sentAfterShutdown = append(rec.sentAfterShutdown, m.shutdownBegun)
 				m.mu.Unlock()
 				select {
 				case updates <- u:
@@ -570,6 +632,7 @@ func (e fakeExecutor) finishWith(rec *execRec, nonOK bool) *remoteexecution.Exec
 	rec.response = resp
 	rec.responseSnap = proto.Clone(resp).(*remoteexecution.ExecuteResponse)
 	rec.returned = true
+	rec.returnedAfterShutdown = m.shutdownBegun
 	m.active--
 	m.logf("exec %d returns (code %d); active=%d", rec.id, resp.GetStatus().GetCode(), m.active)
 	m.histf("E-%d", resp.GetStatus().GetCode())
